@@ -7,7 +7,7 @@ use super::sendbody::send_body_flow;
 use crate::engine::{guarded, pattern, Report, Tier, Violation};
 use crate::refmodel::chunked::decode_strict;
 
-pub const RULE: &str = "every output length n in 0..=3*10248+64 (thorough: 0..=10*10248+64) plus boundary set {k*10248+d, 16^j+d}: m = calculate_max_input(n) on the real SendBody flow, then the real write(input[..m], out[..n]); chunked and length-delimited bodies; for length-delimited bodies additionally Content-Length {0,1,100,20000} x already-accounted {0,1,half,all} x n up to 70000 (the advertised size is n whatever remains); the same check from non-initial states: after an earlier write of {1,3,17} input bytes into a buffer of 0..=24 bytes in the same SendBody state, and for a chunked body selected by a mixed-case Transfer-Encoding: Chunked next to a Content-Length header, n in 0..=300 u 4090..=4110 u 10240..=10270. distinct = distinct (mode, m>0, chunks emitted, hex digits of last chunk) classes";
+pub const RULE: &str = "every output length n in 0..=3*10248+64 (thorough: 0..=10*10248+64) plus boundary set {k*10248+d, 16^j+d}: m = calculate_max_input(n) on the real SendBody flow, then the real write(input[..m], out[..n]); chunked and length-delimited bodies; for length-delimited bodies additionally Content-Length {0,1,100,20000} x already-accounted {0,1,half,all} x n up to 70000 (the advertised size is n whatever remains); the same check from non-initial states: after an earlier write of {0 (an end signal, only into buffers too small for the terminator),1,3,17} input bytes into a buffer of 0..=24 bytes in the same SendBody state, and for a chunked body selected by a mixed-case Transfer-Encoding: Chunked next to a Content-Length header, n in 0..=300 u 4090..=4110 u 10240..=10270. distinct = distinct (mode, m>0, chunks emitted, hex digits of last chunk) classes";
 
 const CHUNK: usize = 10 * 1024 + 8;
 
@@ -208,8 +208,11 @@ pub fn run(tier: Tier) -> Report {
     let mut extra_jobs: Vec<(usize, bool, &'static str, Option<(usize, usize)>)> = Vec::new();
     for &n in &small_ns {
         extra_jobs.push((n, true, "te-mixed-case+cl", None));
-        for i0 in [1usize, 3, 17] {
+        for i0 in [0usize, 1, 3, 17] {
             for b0 in 0..=24usize {
+                if i0 == 0 && b0 >= 5 {
+                    continue; // an end signal that fits legitimately ends the body
+                }
                 extra_jobs.push((n, true, "", Some((i0, b0))));
                 if b0 % 6 == 0 {
                     extra_jobs.push((n, false, "", Some((i0, b0))));
